@@ -17,11 +17,16 @@ func baseInst(id int, h time.Duration) InstSpec {
 
 // genBasic: 2-4 instances, fault-free, latencies below H/2, staggered starts, an optional graceful stop of the leader.
 func genBasic(rng *rand.Rand, seed int64) *Scenario {
-	h := []time.Duration{200 * ms, 500 * ms, 1000 * ms}[rng.Intn(3)]
+	// (heartbeat intervals from 20 ms up: nothing in the documented configuration rules sets a lower limit, and whatever
+	//  the library does on a timer of its own must still keep a record of three intervals alive)
+	h := []time.Duration{20 * ms, 50 * ms, 200 * ms, 500 * ms, 1000 * ms}[rng.Intn(5)]
 	n := 2 + rng.Intn(3)
-	sc := &Scenario{Name: "basic", Seed: seed, StoreTTL: 3 * h, Lat: map[int]LatSpec{0: {Min: 1 * ms, Max: h / 4}},
-		WatchMin: 1 * ms, WatchMax: h / 2, End: 12 * h, Sample: h / 2,
+	sc := &Scenario{Name: "basic", Seed: seed, StoreTTL: 3 * h, Lat: map[int]LatSpec{0: {Min: h / 200, Max: h / 4}},
+		WatchMin: h / 200, WatchMax: h / 2, End: 12 * h, Sample: h / 2,
 		Responsive: true, NoOutside: true, NoPreempt: true, FaultFree: true, MaxLat: h / 4}
+	if sc.End < 3*time.Second {
+		sc.End = 3 * time.Second
+	}
 	if rng.Intn(5) == 0 {
 		// a long heartbeat interval and a store that takes more than a second per answer, still below H/2
 		h = []time.Duration{2400 * ms, 3000 * ms}[rng.Intn(2)]
@@ -36,6 +41,9 @@ func genBasic(rng *rand.Rand, seed int64) *Scenario {
 		}
 		sc.Insts = append(sc.Insts, is)
 		sc.Steps = append(sc.Steps, Step{At: time.Duration(rng.Int63n(int64(2 * h))), Kind: "start", Inst: i})
+		if rng.Intn(4) == 0 {
+			sc.Steps = append(sc.Steps, Step{At: 3*h + time.Duration(rng.Int63n(int64(3*h))), Kind: "rereg", Inst: i})
+		}
 	}
 	if rng.Intn(2) == 0 {
 		who := 1 + rng.Intn(n)
@@ -256,6 +264,10 @@ func genConn(rng *rand.Rand, seed int64) *Scenario {
 		is.Grace = grace
 		sc.Insts = append(sc.Insts, is)
 		sc.Steps = append(sc.Steps, Step{At: time.Duration(i-1) * 50 * ms, Kind: "start", Inst: i})
+	}
+	if rng.Intn(4) == 0 {
+		// an application that shuts the component down when it loses leadership: its demotion callback calls Stop()
+		sc.Insts[0].DemoteStops = true
 	}
 	t := 2*h + time.Duration(rng.Int63n(int64(h)))
 	k := 1 + rng.Intn(5)
@@ -687,6 +699,28 @@ func genTakeoverStop(rng *rand.Rand, seed int64) *Scenario {
 	}
 	sc.Triggers = []Trigger{{Inst: 2, Nth: 2, Phase: phase, Delay: time.Duration(rng.Intn(12)) * ms, Step: st}}
 	sc.End = 8 * h
+	if rng.Intn(3) == 0 {
+		// instead of being stopped the incumbent is asked to validate its token around the moment it is preempted, and its
+		// store operations are slow: by the time the read is answered it has been refused a refresh, or told by its
+		// watcher, and follows the preemptor - a verdict "valid" would be about somebody else's record
+		// (the read has to span the preemptor's first refresh and be answered before the second; the incumbent's refreshes
+		//  stay within the heartbeat's own time-out of one second)
+		h = 500 * ms
+		for k := range sc.Insts {
+			sc.Insts[k].H, sc.Insts[k].TTL = h, 3*h
+		}
+		sc.StoreTTL, sc.Sample = 3*h, h/2
+		sc.Steps[1].At = h/4 + time.Duration(rng.Int63n(int64(h/2)))
+		sc.Lat[1] = LatSpec{Min: h / 2, Max: 2*h - 50*ms}
+		sc.Steps[1].At += 4 * h
+		sc.WatchMin, sc.WatchMax = 1*ms, h/8
+		kind := []string{"validate", "validate-or-demote"}[rng.Intn(2)]
+		sc.Triggers = []Trigger{{Inst: 2, Nth: 2, Phase: phase, Delay: time.Duration(rng.Intn(12)) * ms, Step: Step{Kind: kind, Inst: 1}}}
+		for k := 0; k < 2; k++ {
+			sc.Steps = append(sc.Steps, Step{At: sc.Steps[1].At + time.Duration(rng.Int63n(int64(2*h))), Kind: kind, Inst: 1})
+		}
+		sc.End = 12 * h
+	}
 	return sc
 }
 
@@ -897,6 +931,11 @@ func genLease(rng *rand.Rand, seed int64) *Scenario {
 		sc.Insts = append(sc.Insts, is)
 		at := time.Duration(rng.Int63n(int64(3*h)))/2*2 + 1
 		sc.Steps = append(sc.Steps, Step{At: at, Kind: "start", Inst: i})
+		if rng.Intn(3) == 0 {
+			// the application registers its callbacks again at some point of the instance's life (the same functions: a
+			// re-initialised component): what is running goes on running
+			sc.Steps = append(sc.Steps, Step{At: at + time.Duration(rng.Int63n(int64(12*h)))/2*2 + 1, Kind: "rereg", Inst: i})
+		}
 		// a life of stops and restarts
 		for at < 20*h && rng.Intn(3) > 0 {
 			at += time.Duration(rng.Int63n(int64(8*h)))/2*2 + 2
